@@ -15,7 +15,7 @@ sys.path.insert(0, os.path.dirname(os.path.dirname(os.path.abspath(__file__))))
 
 from pyvc.contracts import Registry  # noqa: E402
 from pyvc.frontend import Repo  # noqa: E402
-from pyvc.verify import ERROR, PROVED, REFUTED, UNKNOWN, OblResult, Verifier, expand_keys  # noqa: E402
+from pyvc.verify import ERROR, PROVED, REFUTED, UNKNOWN, OblResult, Verifier, expand_keys, unverified_impls  # noqa: E402
 from runner.props import PROPS  # noqa: E402
 from spec.vocab import Spec  # noqa: E402
 
@@ -159,6 +159,10 @@ def main() -> int:
     os.makedirs(os.path.join(VERIF, "replays"), exist_ok=True)
     violations: list[str] = []
     conc_cache: dict = {}
+    standin_cache: dict = {}
+    bounded_seen: dict = {}
+    sp = os.path.join(VERIF, "BOUNDED_STANDINS.json")
+    standins = [b for b in (json.load(open(sp))["standins"] if os.path.exists(sp) else []) if b["property"] == pid]
     notes: list[str] = []
     known_seen: list[str] = []
     undecided: list[str] = []
@@ -211,6 +215,22 @@ def main() -> int:
                             f"# obligation {r['label']} (path {r['path'][-120:]}) was not discharged ({r['status']}: {r['reason']}); bounded native search found:\n"
                             + "".join("# " + ln + "\n" for ln in c_out.strip().splitlines()[-6:])
                             + f"sys.exit(subprocess.call([sys.executable, '/verif/replay/concretise.py', {r['func']!r}, {r['clause']!r}, '6000']))\n")
+        sb = next((b for b in standins if any(r["label"].startswith(pfx) for pfx in b["obligations"])), None)
+        if sb is not None and kf is None:
+            if sb["id"] not in standin_cache:
+                wrapper = "import subprocess, sys\nsys.exit(subprocess.call(%r))\n" % ([NATIVE_PY] + [os.path.join(VERIF, a) if a.endswith(".py") else a for a in sb["cmd"]],)
+                standin_cache[sb["id"]] = run_replay(wrapper, os.path.join(VERIF, "replays", f"{pid}-standin-{sb['id']}.py"))
+            b_ok, b_out = standin_cache[sb["id"]]
+            if b_ok is False:
+                bounded_seen.setdefault(sb["id"], {"standin": sb["id"], "bound": sb["bound"], "why": sb["why"], "obligations": [], "result": b_out.strip()[-300:]})
+                bounded_seen[sb["id"]]["obligations"].append(r["label"])
+                continue
+            if b_ok is True:
+                violations.append(f"VIOLATION property={pid} replay={os.path.join(VERIF, 'replays', f'{pid}-standin-' + sb['id'] + '.py')} obligation={r['label']} (bounded stand-in {sb['id']} found a failing input)")
+                n_obl += 1
+                continue
+            faults.append(f"bounded stand-in {sb['id']} did not complete: {b_out[-300:]}")
+            continue
         if kf is not None:
             ok, why = check_known(kf, r, _V)
             if ok:
@@ -255,7 +275,7 @@ def main() -> int:
         "z3 soundness",
         "closed world: only the classes defined in /repo (custom RowFilter/Reordering/MarkerRelation subclasses excluded)",
         "partial correctness: termination is not proved",
-    ] + [f"assumed contract: {k}" for m in metas.values() for k in m.get("assumed_contracts_used", [])]))
+    ] + unverified_impls(repo, reg, pid) + [f"assumed contract: {k}" for m in metas.values() for k in m.get("assumed_contracts_used", [])]))
     ev = {
         "property_id": pid,
         "tier": a.tier,
@@ -274,6 +294,7 @@ def main() -> int:
             "solver_seconds": round(solver_s, 3),
             "samples": samples,
             "known_findings_seen": known_seen,
+            "bounded_standins": list(bounded_seen.values()),
             "undecided": undecided,
             "checker_faults": faults,
             "repo_tree_hash": repo.tree_hash(),
@@ -286,6 +307,8 @@ def main() -> int:
     os.makedirs(os.path.join(VERIF, "evidence"), exist_ok=True)
     with open(os.path.join(VERIF, "evidence", f"{pid}.json"), "w") as f:
         json.dump(ev, f, indent=1, default=str)
+    for b in bounded_seen.values():
+        print(f"BOUNDED (not proved): stand-in {b['standin']} covers {len(b['obligations'])} obligation instance(s): {b['bound']}")
     print(f"{pid}: {n_dis}/{n_obl} obligations discharged over {len(funcs)} functions, "
           f"{len(violations)} violation(s), {len(known_seen)} known, {len(undecided)} undecided, {len(faults)} fault(s), {ev['wall_s']}s")
     if violations:
